@@ -73,7 +73,7 @@ def run(res, replay=None):
             viol('reported parameters lie outside the bounds', params=m['params'], bounds=r['bounds'])
         if m['loss'] != min(m['loss_runs']) or len(m['loss_runs']) != c['n_runs']:
             viol('reported loss is not the minimum over all runs', loss=m['loss'], loss_runs=m['loss_runs'])
-        if abs(r['loss_at_params'] - m['loss']) > 1e-12 * max(1.0, abs(m['loss'])) + 1e-15:
+        if C.gt(abs(r['loss_at_params'] - m['loss']), 1e-12 * max(1.0, abs(m['loss'])) + 1e-15):
             viol('reported loss is not the loss at the reported parameters', loss=m['loss'], loss_at_params=r['loss_at_params'])
         if r.get('merged_dist_N0') is not None and r['merged_dist_N0'] != r['merged_params_N0']:
             viol('after a merge the reported distribution is not built from the reported parameters (it had been read before the merge)',
@@ -126,10 +126,10 @@ def run(res, replay=None):
             viol('create_bootstrap did not resample the observation')
         for dv in r.get('derived', []):
             sm = dv['summary']
-            if sm['loss'] != min(sm['loss_runs']) or abs(dv['loss_at_params'] - sm['loss']) > 1e-12 * max(1.0, abs(sm['loss'])) + 1e-15:
+            if sm['loss'] != min(sm['loss_runs']) or C.gt(abs(dv['loss_at_params'] - sm['loss']), 1e-12 * max(1.0, abs(sm['loss'])) + 1e-15):
                 viol(f"an object made by {dv['kind']} from a parent that had run, then run itself, does not report its own best run",
                      derived=dv)
-        if any(abs(x - t) > 1e-3 * max(1.0, t) for x, t in zip(p, c['truth'])):
+        if any(C.gt(abs(x - t), 1e-3 * max(1.0, t)) for x, t in zip(p, c['truth'])):
             viol('generating parameters not recovered on noise-free data', params=p, truth=c['truth'])
         # replay through the Gallina model: seeded start points and selection
         nb = len(r['bounds'])
@@ -182,11 +182,11 @@ def run(res, replay=None):
             res.violation('inference over a model parameter raised', {'case': mc, 'error': rr['error']})
             continue
         a, b = rr['cache_on'], rr['cache_off']
-        if abs(a['v'] - b['v']) > 1e-6 or abs(a['loss'] - b['loss']) > 1e-9 * max(1.0, abs(b['loss'])):
+        if C.gt(abs(a['v'] - b['v']), 1e-6) or C.gt(abs(a['loss'] - b['loss']), 1e-9 * max(1.0, abs(b['loss']))):
             res.violation('state-space caching on/off changes the result of an inference over a model parameter', {'case': mc, 'cache_on': a, 'cache_off': b})
-        elif abs(a['loss_at'] - a['loss']) > 1e-9 * max(1.0, abs(a['loss'])) + 1e-15:
+        elif C.gt(abs(a['loss_at'] - a['loss']), 1e-9 * max(1.0, abs(a['loss'])) + 1e-15):
             res.violation('reported loss is not the loss at the reported parameters (inference over a model parameter)', {'case': mc, 'result': a})
-        elif abs(a['v'] - mc['truth']) > 1e-3:
+        elif C.gt(abs(a['v'] - mc['truth']), 1e-3):
             res.violation('generating model parameter not recovered on noise-free data', {'case': mc, 'result': a})
     res.stream('inference', cases=len(cases), model_parameter_cases=len(mcases))
     res.extra['input_distribution'] = {'n_runs': sorted(c['n_runs'] for c in cases), 'two_params': sum(1 for c in cases if c['two_params']),
